@@ -7,7 +7,7 @@ The quoting functions are the model of /repo's code (`MesonModel/Quote/Model.lea
 (restricted to the quoters' output language) and libiberty.  Every theorem quantifies over all
 strings / all argument lists.
 -/
-import MesonModel.Quote.PipeLemmas
+import MesonModel.Quote.RuleLemmas
 
 namespace MesonModel.Props.C03
 open MesonModel.Quote MesonModel.Py
@@ -123,7 +123,6 @@ def liftSh {α} : Except ShErr α → Except PErr α
   | .ok a => .ok a | .error e => .error (.sh e)
 
 def sCOMMAND : Str := "COMMAND".toList
-def scommand : Str := "command".toList
 
 /-- `NinjaRule('CUSTOM_COMMAND', ['$COMMAND'], [], …)` -/
 def customRule : Rule := { command := [strToCommandArg ('$' :: sCOMMAND)], args := [] }
@@ -202,6 +201,166 @@ example : runCustom ["prog".toList, "a b".toList, "$x;'\"".toList, andand, "p2".
     .ok [["prog".toList, "a b".toList, "$x;'\"".toList], ["p2".toList, [], "*".toList]] :=
   andand_separates ["prog".toList, "a b".toList, "$x;'\"".toList] ["p2".toList, [], "*".toList]
     (by simp) (by simp) (by decide)
+
+/-! ### The compile and link rule shapes end to end (`c_COMPILER`, `c_LINKER`) -/
+
+theorem quoted_arg_names :
+    Generated.rawNames.contains sARGS = false ∧ Generated.rawNames.contains sLINK_ARGS = false := by decide
+
+/-- what a POSIX host executes for a compile statement: rule
+`NinjaRule(c_COMPILER, exe, ['$ARGS', '-o' '$out' (unquoted words), '-c', '$in'])` as written by
+`NinjaRule`, `ARGS` as written by `NinjaBuildElement.write`, both expanded by Ninja for this
+statement (`$in`/`$out` shell-escaped by Ninja), the string split by `/bin/sh` -/
+def runCompile (exe args : List Str) (out inp : Str) : Except PErr (List Str) := do
+  let cmdStr ← liftQ (compileRule exe).commandStr
+  let v ← liftQ (varValue shQuote sARGS args)
+  let value ← liftN (ninjaEval (fun _ => []) v)
+  let e : Edge := { ruleBindings := [(scommand, cmdStr)], vars := [(sARGS, value)], ins := [inp], outs := [out] }
+  let c ← liftN (edgeBinding e scommand)
+  liftSh (shSplit c)
+
+/-- **command_argv**, compile shape: the compiler is started with exactly its own words, then the
+statement's `ARGS` — every element unchanged, same count, same order, whatever it contains except a
+newline — then `-o out -c in`.  (`exe` words: no newline, not `&&`, not starting with `$`;
+`out`/`in`: non-empty paths over Ninja's shell-safe characters, so that Ninja's own escaping of
+`$in`/`$out` is the identity.) -/
+theorem compile_command_argv (exe args : List Str) (out inp : Str) (hne : exe ≠ [])
+    (hexe : ∀ e ∈ exe, GoodExe e) (hargs : ∀ a ∈ args, NoNl a ∧ a ≠ andand)
+    (hout : PlainWord out) (hinp : PlainWord inp) :
+    runCompile exe args out inp = .ok (exe ++ args ++ [wO, out, wC, inp]) := by
+  obtain ⟨v, hv, hev⟩ := var_line_roundtrip (fun _ => []) sARGS quoted_arg_names.1 args (fun a ha => (hargs a ha).1)
+  rw [map_elemQuote_plain args (fun a ha => (hargs a ha).2)] at hev
+  unfold runCompile
+  rw [compileRule_commandStr exe hne hexe, hv]
+  simp only [liftQ, liftN, hev, bind, Except.bind]
+  have := compile_edge exe args out inp hexe hout hinp
+  unfold compileEdge at this
+  rw [this]
+  simp only [liftSh, shSplit_pieces]
+  simp
+
+example : runCompile ["cc".toList] ["-DX=\"a b\"".toList, "-I$dir".toList, "it's;*".toList] "o/m.c.o".toList "../m.c".toList =
+    .ok ["cc".toList, "-DX=\"a b\"".toList, "-I$dir".toList, "it's;*".toList, wO, "o/m.c.o".toList, wC, "../m.c".toList] :=
+  compile_command_argv _ _ _ _ (by simp) (by decide) (by decide) (by decide) (by decide)
+
+/-- the same for a link statement: rule `NinjaRule(c_LINKER, exe, ['$ARGS', '-o' '$out', '$in', '$LINK_ARGS'])` -/
+def runLink (exe args largs : List Str) (out inp : Str) : Except PErr (List Str) := do
+  let cmdStr ← liftQ (linkRule exe).commandStr
+  let v ← liftQ (varValue shQuote sARGS args)
+  let value ← liftN (ninjaEval (fun _ => []) v)
+  let lv ← liftQ (varValue shQuote sLINK_ARGS largs)
+  let lvalue ← liftN (ninjaEval (fun _ => []) lv)
+  let e : Edge := { ruleBindings := [(scommand, cmdStr)], vars := [(sARGS, value), (sLINK_ARGS, lvalue)],
+                    ins := [inp], outs := [out] }
+  let c ← liftN (edgeBinding e scommand)
+  liftSh (shSplit c)
+
+/-- **command_argv**, link shape: linker words, `ARGS`, `-o out in`, then `LINK_ARGS` — all unchanged -/
+theorem link_command_argv (exe args largs : List Str) (out inp : Str) (hne : exe ≠ [])
+    (hexe : ∀ e ∈ exe, GoodExe e) (hargs : ∀ a ∈ args, NoNl a ∧ a ≠ andand)
+    (hlargs : ∀ a ∈ largs, NoNl a ∧ a ≠ andand) (hout : PlainWord out) (hinp : PlainWord inp) :
+    runLink exe args largs out inp = .ok (exe ++ args ++ [wO, out, inp] ++ largs) := by
+  obtain ⟨v, hv, hev⟩ := var_line_roundtrip (fun _ => []) sARGS quoted_arg_names.1 args (fun a ha => (hargs a ha).1)
+  obtain ⟨lv, hlv, helv⟩ :=
+    var_line_roundtrip (fun _ => []) sLINK_ARGS quoted_arg_names.2 largs (fun a ha => (hlargs a ha).1)
+  rw [map_elemQuote_plain args (fun a ha => (hargs a ha).2)] at hev
+  rw [map_elemQuote_plain largs (fun a ha => (hlargs a ha).2)] at helv
+  unfold runLink
+  rw [linkRule_commandStr exe hne hexe, hv, hlv]
+  simp only [liftQ, liftN, hev, helv, bind, Except.bind]
+  have := link_edge exe args largs out inp hexe hout hinp
+  unfold linkEdge at this
+  rw [this]
+  simp only [liftSh, shSplit_pieces]
+  simp
+
+/-- a statement that goes through a response file (`c_COMPILER_RSP`): what the shell starts, and what
+`gcc` reads from the file Ninja wrote from `rspfile_content` -/
+def runCompileRsp (exe args : List Str) (out inp : Str) : Except PErr (List Str × List Str) := do
+  let cmdStr ← liftQ (compileRule exe).rspCommandStr
+  let content ← liftQ (compileRule exe).rspContentStr
+  let v ← liftQ (varValue gccRspQuote sARGS args)
+  let value ← liftN (ninjaEval (fun _ => []) v)
+  let e : Edge := { ruleBindings := [(scommand, cmdStr), (srspfile_content, content)], vars := [(sARGS, value)],
+                    ins := [inp], outs := [out] }
+  let c ← liftN (edgeBinding e scommand)
+  let file ← liftN (edgeBinding e srspfile_content)
+  let argv ← liftSh (shSplit c)
+  pure (argv, buildargv file)
+
+/-- **command_argv**, compile shape through a response file: the shell starts `exe… @out.rsp`, and the
+file holds exactly `ARGS` (unchanged, any content but a newline) followed by `-o out -c in` -/
+theorem compile_rsp_argv (exe args : List Str) (out inp : Str)
+    (hexe : ∀ e ∈ exe, GoodExe e) (hargs : ∀ a ∈ args, NoNl a ∧ a ≠ andand)
+    (hout : PlainWord out) (hinp : PlainWord inp) :
+    runCompileRsp exe args out inp = .ok (exe ++ [atFile out], args ++ [wO, out, wC, inp]) := by
+  have hv := varValue_quoted gccRspQuote gccRspQuote_noNl sARGS quoted_arg_names.1 args (fun a ha => (hargs a ha).1)
+  have hmap : args.map (elemQuote gccRspQuote) = args.map gccRspQuote := by
+    apply List.map_congr_left; intro a ha; simp [elemQuote, (hargs a ha).2]
+  rw [hmap] at hv
+  have hev := ninjaEval_join (fun _ => []) (args.map gccRspQuote)
+    (by intro x hx; rw [List.mem_map] at hx; obtain ⟨a, ha, rfl⟩ := hx; exact gccRspQuote_noNl a (hargs a ha).1)
+  unfold runCompileRsp
+  rw [show compileRule exe = { command := exe.map strToCommandArg, args := compileArgs } from rfl,
+    rspCommandStr_exe exe compileArgs hexe]
+  rw [show ({ command := exe.map strToCommandArg, args := compileArgs } : Rule) = compileRule exe from rfl,
+    compileRule_rspContentStr, hv]
+  simp only [liftQ, liftN, hev, bind, Except.bind]
+  have hc := rsp_command_edge (compileRspEdge exe args out inp) exe out hexe hout rfl rfl rfl
+  have hf := compile_rsp_content exe args out inp hout hinp
+  unfold compileRspEdge at hc hf
+  rw [hc, hf]
+  simp only [liftSh, shSplit_pieces, bav_pieces, pure, Except.pure]
+  simp
+
+def runLinkRsp (exe args largs : List Str) (out inp : Str) : Except PErr (List Str × List Str) := do
+  let cmdStr ← liftQ (linkRule exe).rspCommandStr
+  let content ← liftQ (linkRule exe).rspContentStr
+  let v ← liftQ (varValue gccRspQuote sARGS args)
+  let value ← liftN (ninjaEval (fun _ => []) v)
+  let lv ← liftQ (varValue gccRspQuote sLINK_ARGS largs)
+  let lvalue ← liftN (ninjaEval (fun _ => []) lv)
+  let e : Edge := { ruleBindings := [(scommand, cmdStr), (srspfile_content, content)],
+                    vars := [(sARGS, value), (sLINK_ARGS, lvalue)], ins := [inp], outs := [out] }
+  let c ← liftN (edgeBinding e scommand)
+  let file ← liftN (edgeBinding e srspfile_content)
+  let argv ← liftSh (shSplit c)
+  pure (argv, buildargv file)
+
+/-- **command_argv**, link shape through a response file -/
+theorem link_rsp_argv (exe args largs : List Str) (out inp : Str)
+    (hexe : ∀ e ∈ exe, GoodExe e) (hargs : ∀ a ∈ args, NoNl a ∧ a ≠ andand)
+    (hlargs : ∀ a ∈ largs, NoNl a ∧ a ≠ andand) (hout : PlainWord out) (hinp : PlainWord inp) :
+    runLinkRsp exe args largs out inp = .ok (exe ++ [atFile out], args ++ [wO, out, inp] ++ largs) := by
+  have hv := varValue_quoted gccRspQuote gccRspQuote_noNl sARGS quoted_arg_names.1 args (fun a ha => (hargs a ha).1)
+  have hlv := varValue_quoted gccRspQuote gccRspQuote_noNl sLINK_ARGS quoted_arg_names.2 largs (fun a ha => (hlargs a ha).1)
+  have hmap : args.map (elemQuote gccRspQuote) = args.map gccRspQuote := by
+    apply List.map_congr_left; intro a ha; simp [elemQuote, (hargs a ha).2]
+  have hlmap : largs.map (elemQuote gccRspQuote) = largs.map gccRspQuote := by
+    apply List.map_congr_left; intro a ha; simp [elemQuote, (hlargs a ha).2]
+  rw [hmap] at hv
+  rw [hlmap] at hlv
+  have hev := ninjaEval_join (fun _ => []) (args.map gccRspQuote)
+    (by intro x hx; rw [List.mem_map] at hx; obtain ⟨a, ha, rfl⟩ := hx; exact gccRspQuote_noNl a (hargs a ha).1)
+  have helv := ninjaEval_join (fun _ => []) (largs.map gccRspQuote)
+    (by intro x hx; rw [List.mem_map] at hx; obtain ⟨a, ha, rfl⟩ := hx; exact gccRspQuote_noNl a (hlargs a ha).1)
+  unfold runLinkRsp
+  rw [show linkRule exe = { command := exe.map strToCommandArg, args := linkArgs } from rfl,
+    rspCommandStr_exe exe linkArgs hexe]
+  rw [show ({ command := exe.map strToCommandArg, args := linkArgs } : Rule) = linkRule exe from rfl,
+    linkRule_rspContentStr, hv, hlv]
+  simp only [liftQ, liftN, hev, helv, bind, Except.bind]
+  have hc := rsp_command_edge (linkRspEdge exe args largs out inp) exe out hexe hout rfl rfl rfl
+  have hf := link_rsp_content exe args largs out inp hout hinp
+  unfold linkRspEdge at hc hf
+  rw [hc, hf]
+  simp only [liftSh, shSplit_pieces, bav_pieces, pure, Except.pure]
+  simp
+
+example : runCompileRsp ["cc".toList] ["-DX=\"a\\b\"".toList, "it's".toList] "o/m.c.o".toList "../m.c".toList =
+    .ok (["cc".toList, "@o/m.c.o.rsp".toList],
+         ["-DX=\"a\\b\"".toList, "it's".toList, wO, "o/m.c.o".toList, wC, "../m.c".toList]) :=
+  compile_rsp_argv _ _ _ _ (by decide) (by decide) (by decide) (by decide)
 
 /-! ### `escape_extra_args`: backslashes doubled only for per-target `-D` / `/D` -/
 
@@ -316,30 +475,41 @@ theorem direct_is_unchanged (r : ExeReq) (argv : List Str) (h : asMesonExeCmdlin
         · cases h
       · cases h
 
-/-- the statement the property makes about *every* string a build definition supplies, env values
-included: a newline anywhere forces the pickled wrapper -/
-def newline_anywhere_forces_serialisation : Prop :=
-  ∀ r : ExeReq, ((∃ a ∈ r.cmdArgs, ¬ NoNl a) ∨ (∃ kv ∈ r.envVars, ¬ NoNl kv.2)) → asMesonExeCmdline r = .pickled
+/-- the same for env values (repaired in /repo: `fix: serialise a command whose env value contains a
+newline`): a newline in any command word **or any env value** forces the pickled wrapper, so the
+`env K=V prog…` shortcut never has to write a newline into the manifest. -/
+theorem newline_anywhere_forces_serialisation (r : ExeReq)
+    (h : (∃ a ∈ r.cmdArgs, ¬ NoNl a) ∨ (∃ kv ∈ r.envVars, ¬ NoNl kv.2)) :
+    asMesonExeCmdline r = .pickled := by
+  rcases h with h | ⟨kv, hkv, hnl⟩
+  · exact newline_forces_serialisation r h
+  · have hne0 : r.envVars ≠ [] := fun e => by rw [e] at hkv; simp at hkv
+    have hmemnl : '\n' ∈ kv.2 := Classical.not_not.1 hnl
+    have hany : r.envVars.any (·.2.contains '\n') = true :=
+      List.any_eq_true.2 ⟨kv, hkv, by simpa using hmemnl⟩
+    have hmem : Reason.envNewlines ∈ reasons r := by
+      unfold reasons; rw [if_pos hne0, hany]; simp
+    have hne : reasons r ≠ [] := fun e => by rw [e] at hmem; simp at hmem
+    have hne2 : reasons r ≠ [.env] := fun e => by rw [e] at hmem; simp at hmem
+    unfold asMesonExeCmdline
+    simp [hne, hne2]
 
-def envNewlineReq : ExeReq :=
-  { cmdArgs := ["prog".toList, "x".toList], envVars := [("K".toList, "l1\nl2".toList)] }
+example : asMesonExeCmdline { cmdArgs := ["prog".toList, "x".toList],
+                              envVars := [("K".toList, "l1\nl2".toList)] } = .pickled :=
+  newline_anywhere_forces_serialisation _ (.inr ⟨("K".toList, "l1\nl2".toList), by decide, by decide⟩)
 
-/-- …and it is false of the code: only `es.cmd_args` is inspected, so an `env:` value with a newline
-takes the `env K=V prog…` shortcut, and that word then cannot be written (`meson setup` fails with
-"Ninja does not support newlines in rules"). -/
-theorem newline_anywhere_forces_serialisation_counterexample : ¬ newline_anywhere_forces_serialisation := by
-  intro h
-  have := h envNewlineReq (.inr ⟨("K".toList, "l1\nl2".toList), by decide, by decide⟩)
-  revert this
-  decide
+/-- whenever the `env` shortcut is taken, no env value and no command word contains a newline -/
+theorem env_prefix_has_no_newline (r : ExeReq) (argv : List Str) (h : asMesonExeCmdline r = .envPrefix argv) :
+    (∀ a ∈ r.cmdArgs, NoNl a) ∧ (∀ kv ∈ r.envVars, NoNl kv.2) := by
+  constructor
+  · intro a ha
+    exact Classical.not_not.1 (fun hn => by
+      rw [newline_anywhere_forces_serialisation r (.inl ⟨a, ha, hn⟩)] at h; cases h)
+  · intro kv hkv
+    exact Classical.not_not.1 (fun hn => by
+      rw [newline_anywhere_forces_serialisation r (.inr ⟨kv, hkv, hn⟩)] at h; cases h)
 
-theorem env_newline_fails_generation :
-    ∃ argv, asMesonExeCmdline envNewlineReq = .envPrefix argv ∧
-      varValue shQuote sCOMMAND argv = .error .newline := by
-  refine ⟨_, rfl, ?_⟩
-  decide
-
-/-- the part that does hold: with the command words *and* env values free of newlines nothing is lost
+/-- with the words free of newlines nothing is lost
 by the `env` shortcut — the words reach `env(1)` unchanged -/
 theorem env_prefix_argv (r : ExeReq) (argv : List Str) (h : asMesonExeCmdline r = .envPrefix argv)
     (hnl : ∀ a ∈ argv, NoNl a ∧ a ≠ andand) : runCustom argv = .ok [argv] := by
